@@ -3,5 +3,6 @@ CONSTANT Bug = "none"
 INVARIANT Bounded
 INVARIANT PermitsOK
 INVARIANT AllRan
+PROPERTY Terminates
 VIEW ViewNoOrder
 CHECK_DEADLOCK TRUE
